@@ -421,8 +421,7 @@ func (e *Env) deref(v Val) Val {
 	if !ok {
 		return e.fail("deref of non-pointer %v", v.Ty)
 	}
-	c, s := u.memComp(pt.Elem())
-	return Val{T: sel(u.comp(e.heap, c, s), v.T), Ty: pt.Elem(), S: u.so.sortOf(pt.Elem())}
+	return Val{T: u.loadPtr(e.heap, v.T, pt.Elem()), Ty: pt.Elem(), S: u.so.sortOf(pt.Elem())}
 }
 
 func (e *Env) selector(n *ast.SelectorExpr) Val {
@@ -597,6 +596,19 @@ func (e *Env) quant(kind string, n *ast.CallExpr) Val {
 	body := sub.evalBool(n.Args[3])
 	rng := and(icmp("<=", lo.T, k), icmp("<", k, hi.T))
 	if kind == "forall" {
+		// Re-index by the absolute array index when the bound variable is used
+		// as "(+ OFF k)" with a single offset term: the array read then is an
+		// arithmetic-free trigger (E-matching does not see through +).
+		if off, ok := singleOffset(body, k); ok {
+			j := strings.Replace(k, "!q", "!j", 1)
+			b2 := strings.ReplaceAll(body, "(+ "+off+" "+k+")", j)
+			b2 = replaceToken(b2, k, "(- "+j+" "+off+")")
+			r2 := and(icmp("<=", iadd(lo.T, off), j), icmp("<", j, iadd(hi.T, off)))
+			if pat := firstSelectWith(b2, j); pat != "" {
+				return bval(fmt.Sprintf("(forall ((%s Int)) (! %s :pattern (%s)))", j, implies(r2, b2), pat))
+			}
+			return bval(fmt.Sprintf("(forall ((%s Int)) %s)", j, implies(r2, b2)))
+		}
 		return bval(fmt.Sprintf("(forall ((%s Int)) %s)", k, implies(rng, body)))
 	}
 	return bval(fmt.Sprintf("(exists ((%s Int)) %s)", k, and(rng, body)))
@@ -638,6 +650,17 @@ func (e *Env) callExpr(n *ast.CallExpr) Val {
 		return sub.eval(n.Args[0])
 	case "forall", "exists":
 		return e.quant(name, n)
+	case "forallint":
+		// forallint(t, body): unbounded universal quantifier over the integers
+		id, ok := n.Args[0].(*ast.Ident)
+		if !ok || len(n.Args) != 2 {
+			e.fail("forallint(t, body)")
+		}
+		u.nfresh++
+		k := fmt.Sprintf("%s!q%d", id.Name, u.nfresh)
+		sub := e.clone()
+		sub.vars[id.Name] = Val{T: k, Ty: intT, S: "Int"}
+		return bval(fmt.Sprintf("(forall ((%s Int)) %s)", k, sub.evalBool(n.Args[1])))
 	case "implies":
 		return bval(implies(e.evalBool(n.Args[0]), e.evalBool(n.Args[1])))
 	case "ite":
@@ -856,6 +879,9 @@ func (e *Env) callExpr(n *ast.CallExpr) Val {
 			e.fail("predicate %s expects %d arguments", name, len(pr.Params))
 		}
 		u.usePred(pr)
+		if pr.Ret == "Int" {
+			return e.ival(app(pr.Name, args...))
+		}
 		return bval(app(pr.Name, args...))
 	}
 	// library macro
@@ -1048,7 +1074,7 @@ func (u *Unit) usePred(pr *Pred) {
 	if u.declFuns[pr.Name] {
 		return
 	}
-	u.declFun(pr.Name, "("+strings.Join(pr.Sorts, " ")+") Bool")
+	u.declFun(pr.Name, "("+strings.Join(pr.Sorts, " ")+") "+pr.Ret)
 	env := u.newEnv(nil)
 	env.noHeap = true
 	var binders []string
@@ -1065,7 +1091,102 @@ func (u *Unit) usePred(pr *Pred) {
 		}
 		env.vars[p] = Val{T: bn, Ty: ty, S: pr.Sorts[i]}
 	}
-	body := env.evalBool(pr.Body)
+	var body string
+	if pr.Ret == "Int" {
+		body = env.eval(pr.Body).T
+	} else {
+		body = env.evalBool(pr.Body)
+	}
 	head := app(pr.Name, names...)
 	u.emit(fmt.Sprintf("(assert (forall (%s) (! (= %s %s) :pattern (%s))))", strings.Join(binders, " "), head, body, head))
+}
+
+// singleOffset: the bound variable k occurs inside "(+ OFF k)" for exactly one
+// term OFF (free of k), at least once.
+func singleOffset(body, k string) (string, bool) {
+	off := ""
+	found := false
+	for i := 0; i+3 < len(body); i++ {
+		if !strings.HasPrefix(body[i:], "(+ ") {
+			continue
+		}
+		// parse one s-expression after "(+ "
+		j := i + 3
+		start := j
+		if body[j] == '(' {
+			d := 0
+			for ; j < len(body); j++ {
+				if body[j] == '(' {
+					d++
+				} else if body[j] == ')' {
+					d--
+					if d == 0 {
+						j++
+						break
+					}
+				}
+			}
+		} else {
+			for j < len(body) && body[j] != ' ' && body[j] != ')' {
+				j++
+			}
+		}
+		first := body[start:j]
+		if strings.HasPrefix(body[j:], " "+k+")") && !strings.Contains(first, k) {
+			if found && first != off {
+				return "", false
+			}
+			off, found = first, true
+		}
+	}
+	return off, found
+}
+
+// replaceToken replaces whole-token occurrences of name.
+func replaceToken(s, name, with string) string {
+	var b strings.Builder
+	for i := 0; i < len(s); {
+		if strings.HasPrefix(s[i:], name) {
+			prevOK := i == 0 || s[i-1] == ' ' || s[i-1] == '('
+			end := i + len(name)
+			nextOK := end == len(s) || s[end] == ' ' || s[end] == ')'
+			if prevOK && nextOK {
+				b.WriteString(with)
+				i = end
+				continue
+			}
+		}
+		b.WriteByte(s[i])
+		i++
+	}
+	return b.String()
+}
+
+// firstSelectWith finds a "(select X j)" term whose index is exactly j and whose array term does not contain nested quantifier variables other than j.
+func firstSelectWith(body, j string) string {
+	needle := " " + j + ")"
+	for i := 0; i < len(body); i++ {
+		if !strings.HasPrefix(body[i:], "(select ") {
+			continue
+		}
+		// find the matching close paren of this select
+		d := 0
+		e := i
+		for ; e < len(body); e++ {
+			if body[e] == '(' {
+				d++
+			} else if body[e] == ')' {
+				d--
+				if d == 0 {
+					e++
+					break
+				}
+			}
+		}
+		t := body[i:e]
+		if strings.HasSuffix(t, needle) && !strings.Contains(t[:len(t)-len(needle)], j) && !strings.Contains(t, "!q") && !strings.Contains(t, "!s") {
+			return t
+		}
+	}
+	return ""
 }
